@@ -279,7 +279,7 @@ func (n *normalizer) ident(id *ast.Ident, at *Point) string {
 				}
 			}
 		}
-		return "local:" + o.Name() + "<" + TypeStr(o.Type()) + ">"
+		return "local:" + f.LocalName(o) + "<" + TypeStr(o.Type()) + ">"
 	}
 	return id.Name
 }
@@ -602,4 +602,20 @@ func ObjID0(f *Fn) string {
 func (f *Fn) DefText(d *Def) (string, bool) {
 	n := normalizer{f: f}
 	return n.defExpr(d)
+}
+
+// LocalName is the name under which an unexpanded local is printed: the
+// positional name (p<i>, r<i>, recv) for parameters and results of f (or of an
+// enclosing function), so that normal forms do not depend on how a parameter
+// or named result is spelled; the declared name for other locals.
+func (f *Fn) LocalName(v *types.Var) string {
+	for p := f; p != nil; p = p.Parent {
+		if s, ok := p.paramName(v); ok {
+			if p == f {
+				return s
+			}
+			return "outer." + s
+		}
+	}
+	return v.Name()
 }
